@@ -177,6 +177,21 @@ func (e *SpecEnv) ident(name string) Val {
 		return boolVal(False)
 	case "nil":
 		return Val{T: types.Typ[types.UntypedNil], C: []*Term{IntC(0)}}
+	case "rangeindex":
+		// hidden index variable of the enclosing range-over-slice/array loop: the index of the last
+		// completed iteration (-1 before the first) at the loop head
+		if e.lp != nil {
+			for _, in := range e.lp.Header.Instrs {
+				if ld, ok := in.(*ssa.UnOp); ok {
+					if a, ok := ld.X.(*ssa.Alloc); ok && a.Comment == "rangeindex" {
+						if v, ok := e.st.Allocs[a]; ok {
+							return v
+						}
+					}
+				}
+			}
+		}
+		e.fail("rangeindex used outside a range loop over a slice, array or integer")
 	case "rangepos":
 		// byte position of the range-over-string iterator of the enclosing loop
 		if e.lp != nil {
@@ -814,6 +829,9 @@ func (e *SpecEnv) call(x *SExpr) Val {
 			la, lb := a.C[2], b.C[2]
 			body := Implies(And(BVSle(BVI(0, 64), i), BVSlt(i, la)), fxx.valuesEqual(e.index(a, iv), e.index(b, iv)))
 			return boolVal(And(Eq(la, lb), Forall([]*Term{i}, body)))
+		case "isdeclared":
+			// isdeclared(x): x equals one of the package-level constants declared with x's type
+			return boolVal(isDeclared(e.eval(args[0])))
 		case "samebase":
 			// samebase(r, x): r and x are views of the same underlying byte sequence (substring / subslice)
 			a, b := e.eval(args[0]), e.eval(args[1])
